@@ -352,6 +352,9 @@ def base_catalogue():
     decls.append(Rec("DedupMix", [F("a", "crate::v::DStr"), F("p", "String"), F("b", "crate::v::DStr"),
                                   F("n", "crate::v::DStr"), F("l", "Vec<crate::v::DStr>")],
                      [("rem", "x"), ("add", "n", "crate::v::DStr(\"x\".to_string())"), ("tra", "gone"), ("rem", "x")]))
+    # an added field declared *before* older fields, all holding deduplicated strings: ids follow the declaration order (C09, C10)
+    decls.append(Rec("DedupOrd", [F("n", "crate::v::DStr"), F("a", "crate::v::DStr"), F("m", "crate::v::DStr"), F("b", "crate::v::DStr")],
+                     [("add", "n", "crate::v::DStr(String::new())"), ("add", "m", "crate::v::DStr(\"x\".to_string())")]))
     decls.append(Rec("DedupNest", [F("h", "crate::v::DStr"), F("r", "DedupR2"), F("m", "DedupMix"), F("t", "crate::v::DStr")]))
     # the types of the repository's golden test (data written by Scala desert), mirrored: same attributes, same field order;
     # `StackTraceElement` has a hand-written codec there (0, three Option<String>, var-u32) = a headerless record of these fields
